@@ -1,7 +1,272 @@
-import W2c2Verif.Model.Files
-namespace W2c2Verif.Props.C20
-open W2c2Verif W2c2Verif.Model.Files W2c2Verif.Gen.Files
+/-
+  C20 — the translator touches only its own output files.
 
-theorem near_miss_placeholder : cleanAccept true (nm "s000000000.c") = false := by decide
+  All statements are about Model.Files, which *interprets* Gen.Files (regenerated from c.h, c.c,
+  main.c, file.c on every run): a loosened length test, a dropped first-character test, a wider
+  digit loop, another glob pattern or format string, cleaning before chdir, a new fopen/remove
+  site or another fopen mode all change Gen.Files and these theorems are re-checked against it.
+  Quantification: ALL byte strings as names, ALL 2^32 file indices, ALL directory contents
+  (`FS` is an arbitrary function), ALL listings glob may return (any order, duplicates), ALL
+  option values, ALL partitions of the functions into files (`plan` is arbitrary), both
+  signednesses of `char`.
+-/
+import W2c2Verif.Lemmas.FilesRun
+
+namespace W2c2Verif.Props.C20
+open W2c2Verif W2c2Verif.Model.Files W2c2Verif.Gen.Files W2c2Verif.Lemmas.Files
+
+/-! ## names the writer produces -/
+
+/-- `sprintf(filename, "%c%010u.c", prefix, index)` for every prefix character and every U32 index:
+    exactly W2C2_IMPL_FILENAME_LENGTH bytes — the prefix, ten decimal digits, `.c` -/
+theorem impl_name_format (c : UInt8) (i : BitVec 32) :
+    (implName c i).length = implLen ∧
+    ∃ ds : List UInt8, ds.length = 10 ∧ (∀ d ∈ ds, isDigit d = true) ∧ implName c i = c :: ds ++ [46, 99] := by
+  rw [implName_eq]
+  have hl := padLeft_length 10 48 _ (decimal_length_u32 i.toNat i.isLt)
+  refine ⟨by simp [hl, implLen], padLeft 10 48 (decimal i.toNat), hl, padLeft_digits 10 _ (decimal_digits _), rfl⟩
+
+/-- … so it fits `char filename[W2C2_IMPL_FILENAME_LENGTH+1]` including the terminator -/
+theorem impl_name_fits_buffer (c : UInt8) (i : BitVec 32) : (implName c i).length + 1 ≤ implBufSize := by
+  rw [(impl_name_format c i).1]; decide
+
+/-- the two call sites pass `'s'` and `'d'` -/
+theorem impl_prefixes : prefixChars = [115, 100] := prefixChars_eq
+
+theorem impl_names_are_impl_names (c : UInt8) (hc : c ∈ prefixChars) (i : BitVec 32) : IsImplName (implName c i) := by
+  rw [prefixChars_eq] at hc
+  simp at hc
+  exact implName_isImpl c hc i
+
+/-! ## the clean predicate -/
+
+/-- the predicate `cleanImplementationFiles` applies (glob `*.c` without GLOB_PERIOD, then the three
+    extracted tests) accepts exactly `[sd][0-9]{10}\.c` — for every byte string and either `char` signedness -/
+theorem impl_name_pred_iff (sg : Bool) (name : Name) : cleanAccept sg name = true ↔ IsImplName name :=
+  cleanAccept_iff sg name
+
+/-- evaluating the tests never reads outside the NUL-terminated name (no UB), whatever its length -/
+theorem clean_pred_no_ub (sg : Bool) (name : Name) : ∃ b, cleanDecision sg name = .val b :=
+  ⟨_, cleanDecision_val sg name⟩
+
+/-- every name the writer can produce is matched by the cleaner (stale files of an earlier, larger
+    run are always cleaned) -/
+theorem impl_names_satisfy_pred (sg : Bool) (c : UInt8) (hc : c ∈ prefixChars) (i : BitVec 32) :
+    cleanAccept sg (implName c i) = true :=
+  (impl_name_pred_iff sg _).mpr (impl_names_are_impl_names c hc i)
+
+/-- `cleanImplementationFiles` on ANY directory state and ANY listing returned by glob: it is total,
+    calls `remove` on exactly `listing.filter cleanPred` (in listing order), every other name of every
+    directory keeps its state, and every matching listed name that is removable is gone afterwards -/
+theorem clean_deletes_only_matching (w : World) (st : St) :
+    ∃ st', cleanDir w st = .val st' ∧
+      removeNames st'.events = removeNames st.events ++ (w.listing st.inOut).filter (cleanAccept w.charSigned) ∧
+      (∀ l : Loc, ¬ (l.inOut = st.inOut ∧ l.name ∈ w.listing st.inOut ∧ cleanAccept w.charSigned l.name = true) →
+        st'.fs l = st.fs l) ∧
+      (∀ n ∈ w.listing st.inOut, cleanAccept w.charSigned n = true →
+        st.fs ⟨st.inOut, n⟩ ≠ some .dirNonEmpty → st'.fs ⟨st.inOut, n⟩ = none) := by
+  obtain ⟨st', h1, h2, _, _, h5, h6, h7⟩ := cleanLoop_spec w.charSigned
+    ((w.listing st.inOut).filter (globMatch globPattern)) (st.emit (.glob st.inOut globPatternString))
+  have hf : ((w.listing st.inOut).filter (globMatch globPattern)).filter stepsB
+      = (w.listing st.inOut).filter (cleanAccept w.charSigned) := by
+    rw [List.filter_filter]
+    congr 1
+    funext n
+    rw [cleanAccept_split, Bool.and_comm]
+  refine ⟨st', h1, ?_, ?_, ?_⟩
+  · rw [h5, hf]
+    simp [St.emit, removeNames_append, removeNames]
+  · intro l hl
+    have := h6 l (by
+      rw [hf]
+      intro hh
+      apply hl
+      have hm := List.mem_filter.mp hh.2
+      exact ⟨hh.1, hm.1, hm.2⟩)
+    simpa [St.emit] using this
+  · intro n hn ha hne
+    have := h7 n (by rw [hf]; exact List.mem_filter.mpr ⟨hn, ha⟩) (by simpa [St.emit] using hne)
+    simpa [St.emit] using this
+
+/-! ## a whole run -/
+
+/-- every path opened for writing is, in `dirname(outputPath)` (after the chdir), the output's basename, its
+    header, `datasegments` (external modes only) or an implementation-file name; opened with a mode
+    extracted from the source -/
+theorem written_files_subset (o : Opts) (w : World) (plan : BitVec 32 → List (BitVec 32) × List (BitVec 32))
+    (fs : FS) (st : St) (h : run o w plan fs = .val st) :
+    ∀ io n m ok, Ev.openWrite io n m ok ∈ st.events →
+      io = true ∧
+      (n = basenameC o.outputPath ∨ n = headerName (basenameC o.outputPath) ∨
+        (external o.mode = true ∧ n = dsName) ∨ IsImplName n) ∧
+      m ∈ [headerMode, outputMode, implMode, dataSegmentsMode] := by
+  intro io n m ok he
+  exact (run_inv h).evs _ he
+
+/-- every `remove` happens in `dirname(outputPath)`, only with the clean option, only on `[sd][0-9]{10}\.c` -/
+theorem removed_files_subset (o : Opts) (w : World) (plan : BitVec 32 → List (BitVec 32) × List (BitVec 32))
+    (fs : FS) (st : St) (h : run o w plan fs = .val st) :
+    ∀ io n ok, Ev.remove io n ok ∈ st.events → io = true ∧ o.clean = true ∧ IsImplName n := by
+  intro io n ok he
+  exact (run_inv h).evs _ he
+
+/-- "never any other file, whatever other names are present": the state of every name of both directories
+    that is not one of the run's own names in the output directory is unchanged (ALL initial contents `fs`) -/
+theorem nothing_else_changes (o : Opts) (w : World) (plan : BitVec 32 → List (BitVec 32) × List (BitVec 32))
+    (fs : FS) (st : St) (h : run o w plan fs = .val st) (l : Loc)
+    (hl : ¬ (l.inOut = true ∧ (l.name = basenameC o.outputPath ∨ l.name = headerName (basenameC o.outputPath) ∨
+        (external o.mode = true ∧ l.name = dsName) ∨ IsImplName l.name))) :
+    st.fs l = fs l := by
+  apply Decidable.byContradiction
+  intro hne
+  exact hl ((run_inv h).frame l hne)
+
+/-- a name disappears only with the clean option, only in the output directory, only if it matches the pattern -/
+theorem deleted_only_matching (o : Opts) (w : World) (plan : BitVec 32 → List (BitVec 32) × List (BitVec 32))
+    (fs : FS) (st : St) (h : run o w plan fs = .val st) (l : Loc) (hgone : st.fs l = none) (hwas : fs l ≠ none) :
+    l.inOut = true ∧ o.clean = true ∧ IsImplName l.name :=
+  (run_inv h).gone l hgone hwas
+
+/-- without the clean option nothing is ever deleted -/
+theorem no_clean_no_delete (o : Opts) (w : World) (plan : BitVec 32 → List (BitVec 32) × List (BitVec 32))
+    (fs : FS) (st : St) (h : run o w plan fs = .val st) (hc : o.clean = false) (l : Loc) (hwas : fs l ≠ none) :
+    st.fs l ≠ none := by
+  intro hgone
+  have := (deleted_only_matching o w plan fs st h l hgone hwas).2.1
+  rw [hc] at this; cases this
+
+/-- the module and the reference module are only ever opened with the extracted read mode, which has no
+    write/append/update flag; by `nothing_else_changes` their state is unchanged unless the user named an
+    output like them -/
+theorem inputs_readonly (o : Opts) (w : World) (plan : BitVec 32 → List (BitVec 32) × List (BitVec 32))
+    (fs : FS) (st : St) (h : run o w plan fs = .val st) :
+    (∀ p m, Ev.openRead p m ∈ st.events → m = readMode ∧ (p = o.modulePath ∨ some p = o.refPath)) ∧
+    (∀ c ∈ readMode.toList, c ≠ 'w' ∧ c ≠ 'a' ∧ c ≠ '+') := by
+  refine ⟨fun p m he => (run_inv h).evs _ he, by decide⟩
+
+/-- every write mode truncates/creates (`"w"`/`"wb"`): nothing is appended to or updated in place -/
+theorem write_modes_truncate : ∀ m ∈ [headerMode, outputMode, implMode, dataSegmentsMode], m = "w" ∨ m = "wb" := by
+  decide
+
+/-- the only directory change is to `dirname(outputPath)` -/
+theorem chdir_only_to_output_dir (o : Opts) (w : World) (plan : BitVec 32 → List (BitVec 32) × List (BitVec 32))
+    (fs : FS) (st : St) (h : run o w plan fs = .val st) :
+    ∀ p ok, Ev.chdir p ok ∈ st.events → p = dirnameC o.outputPath := by
+  intro p ok he
+  exact (run_inv h).evs _ he
+
+/-- the names files are created under contain no path separator (so they denote entries of the current
+    directory = `dirname(outputPath)`), except for an output path made of slashes only -/
+theorem outputs_in_dir (o : Opts) (n : Name)
+    (hn : n = basenameC o.outputPath ∨ n = headerName (basenameC o.outputPath) ∨ n = dsName ∨ IsImplName n) :
+    slash ∉ n ∨ basenameC o.outputPath = [slash] := by
+  rcases basename_no_slash o.outputPath with hb | hb
+  · right; exact hb
+  · left
+    rcases hn with rfl | rfl | rfl | ⟨c, ds, hc, _, hd, rfl⟩
+    · exact hb
+    · exact headerName_no_slash _ hb
+    · decide
+    · intro hm
+      simp only [List.cons_append, List.mem_cons, List.mem_append] at hm
+      rcases hm with hm | hm | hm
+      · rcases hc with rfl | rfl <;> cases hm
+      · have := hd _ hm; revert this; decide
+      · revert hm; decide
+
+/-- `datasegments` is not written in the `arrays` mode (unless the user named the output so) -/
+theorem no_datasegments_in_arrays_mode (o : Opts) (w : World) (plan : BitVec 32 → List (BitVec 32) × List (BitVec 32))
+    (fs : FS) (st : St) (h : run o w plan fs = .val st) (hm : external o.mode = false)
+    (h1 : dsName ≠ basenameC o.outputPath) (h2 : dsName ≠ headerName (basenameC o.outputPath)) :
+    ∀ io m ok, Ev.openWrite io dsName m ok ∉ st.events := by
+  intro io m ok he
+  rcases (written_files_subset o w plan fs st h io dsName m ok he).2.1 with e | e | e | ⟨c, ds, _, hl, _, e⟩
+  · exact h1 e
+  · exact h2 e
+  · rw [hm] at e; cases e.1
+  · have := congrArg List.length e
+    simp [hl] at this
+    revert this; decide
+
+/-- the modes that write `datasegments` are exactly the non-`arrays` modes main() accepts -/
+theorem external_modes : ∀ m ∈ allModes, external m = (m != "arrays") := by decide
+
+/-- header name = basename with its last extension replaced by `.h`, or `.h` appended when there is no period
+    (names without extension, dot files, several periods) -/
+theorem header_name_spec (b : Name) :
+    (∀ stem ext : Name, b = stem ++ 46 :: ext → (46 : UInt8) ∉ ext → headerName b = stem ++ [46, 104]) ∧
+    ((46 : UInt8) ∉ b → headerName b = b ++ [46, 104]) := by
+  constructor
+  · intro stem ext hb hext
+    rw [hb]
+    exact headerName_of_dot stem ext hext
+  · intro h
+    exact headerName_no_dot b h
+
+/-- every file-system call of the translator's sources is one the model accounts for -/
+theorem sites_modelled :
+    sites.map (fun s => (s.func, s.call, s.mode)) =
+      [("wasmCWriteDataSegmentsFromSection", "fopen", dataSegmentsMode),
+       ("wasmCWriteModuleHeader", "fopen", headerMode),
+       ("wasmCWriteImplementationFile", "fopen", implMode),
+       ("wasmCWriteModuleImplementation", "fopen", outputMode),
+       ("readFile", "fopen", readMode),
+       ("cleanImplementationFiles", "glob", ""),
+       ("cleanImplementationFiles", "remove", ""),
+       ("changeToOutputDirectory", "chdir", "")] := by decide
+
+/-- main() changes to the output directory before it cleans or writes, and reads its inputs first -/
+theorem main_order : orderOk false mainSteps = true ∧ mainSteps.head? = some .readModule := by decide
+
+/-! ## non-vacuity -/
+
+-- near-miss names are kept …
+example : cleanAccept true (nm "s000000000.c") = false := by decide      -- nine digits
+example : cleanAccept true (nm "s00000000000.c") = false := by decide    -- eleven digits
+example : cleanAccept true (nm "x0000000000.c") = false := by decide     -- wrong prefix
+example : cleanAccept true (nm "s00000000a0.c") = false := by decide     -- non-digit
+example : cleanAccept true (nm "s0000000000.h") = false := by decide     -- other extension
+example : cleanAccept true (nm "S0000000000.c") = false := by decide     -- upper case
+example : cleanAccept true (nm ".s0000000000.c") = false := by decide    -- hidden
+example : cleanAccept true (nm "s000000000..c") = false := by decide
+example : cleanAccept false [115, 48, 48, 48, 48, 48, 48, 48, 48, 0xc3, 0xa9, 46, 99] = false := by decide  -- 13 bytes, UTF-8
+example : cleanAccept true [115, 48, 48, 48, 48, 48, 48, 48, 48, 0xc3, 0xa9, 46, 99] = false := by decide
+-- … real ones (also beyond 2^32 - 1, also empty directories or links of that name) are removed
+example : cleanAccept true (nm "s0000000000.c") = true := by decide
+example : cleanAccept false (nm "d4294967295.c") = true := by decide
+example : cleanAccept true (nm "d9999999999.c") = true := by decide
+example : IsImplName (nm "s0000000000.c") := (impl_name_pred_iff true _).mp (by decide)
+example : implName 115 0 = nm "s0000000000.c" := by decide
+example : implName 100 4294967295#32 = nm "d4294967295.c" := by decide
+example : implName 115 1234567#32 = nm "s0001234567.c" := by decide
+-- paths
+example : dirnameC (nm "./x/../y/out.c") = nm "./x/../y" ∧ basenameC (nm "./x/../y/out.c") = nm "out.c" := by decide
+example : dirnameC (nm "out.c") = nm "." ∧ dirnameC (nm "/abs/out.c") = nm "/abs" ∧ basenameC (nm "sub/dir/") = nm "dir" := by decide
+example : headerName (nm "out.c") = nm "out.h" ∧ headerName (nm "out") = nm "out.h" ∧ headerName (nm ".hidden") = nm ".h"
+    ∧ headerName (nm "a.b.c") = nm "a.b.h" ∧ headerName (nm "out.") = nm "out.h" := by decide
+
+/-- a concrete run: `w2c2 -c -f 2 -d gnu-ld m.wasm sub/out.c` on a module with 3 functions in a directory
+    holding a stale file, a near miss and a non-empty directory named like an implementation file -/
+def exFs : FS := fun l =>
+  if l = ⟨true, nm "s0000000005.c"⟩ then some (.file false)
+  else if l = ⟨true, nm "s000000000.c"⟩ then some (.file false)
+  else if l = ⟨true, nm "d0000000000.c"⟩ then some .dirNonEmpty
+  else if l = ⟨false, nm "s0000000005.c"⟩ then some (.file false)
+  else none
+
+def exOpts : Opts := { modulePath := nm "m.wasm", refPath := none, outputPath := nm "sub/out.c", fpf := 2, threads := 1,
+                       pretty := false, debug := false, multi := false, clean := true, mode := "gnu-ld" }
+
+def exWorld : World := { moduleOk := true, refOk := true, funcCount := 3, nStatic := 3, nDynamic := 0, chdirOk := true,
+                         listing := fun io => if io then [nm "s000000000.c", nm "d0000000000.c", nm "s0000000005.c"] else [nm "s0000000005.c"],
+                         pathMax := 4096, charSigned := true }
+
+example : (match runC exOpts exWorld exFs with | .val st => st.events | _ => []) =
+    [.openRead (nm "m.wasm") "rb", .chdir (nm "sub") true, .glob true "*.c",
+     .remove true (nm "d0000000000.c") false, .remove true (nm "s0000000005.c") true,
+     .openWrite true (nm "out.h") "w" true, .openWrite true (nm "out.c") "w" true,
+     .openWrite true (nm "datasegments") "wb" true,
+     .openWrite true (nm "s0000000000.c") "w" true, .openWrite true (nm "s0000000001.c") "w" true, .exit 0] := by
+  decide
 
 end W2c2Verif.Props.C20
